@@ -33,7 +33,7 @@ NOT_DECIDED = ['every string comparison result', 'the search over trailing seque
 
 def run(ctx):
     for fn in (r1_never_after, r2_check_guard, r3_unmatched_typestate, r4_repr_fallback, r4b_which_text_is_compared,
-               r5_comment_only, r5b_code_predicate_on_stripped_lines, r6_summary_flags, r7_got_eval_fresh, r8_trailing_sequences, r9_got_want_roles, r10_single_statement_modes_are_cut, r11_value_kept_iff_eval_mode):
+               r5_comment_only, r5b_code_predicate_on_stripped_lines, r6_summary_flags, r7_got_eval_fresh, r8_trailing_sequences, r9_got_want_roles, r10_single_statement_modes_are_cut, r11_value_kept_iff_eval_mode, r5c_code_predicate_on_samples):
         ctx.rep.rule(fn, ctx)
 
 
@@ -622,6 +622,83 @@ def r11_value_kept_iff_eval_mode(ctx):
     rep.floor('C02.R11', 'places where the code of a part is run under a recognised mode', n_rec, 2)
 
 
+def _mini_eval(e, env):
+    """value of a side-effect free expression over strings, lists and booleans (FINITE-EVAL helper); raises KeyError for anything else"""
+    if isinstance(e, ast.Constant):
+        return e.value
+    if isinstance(e, ast.Name):
+        return env[e.id]
+    if isinstance(e, ast.Attribute) and isinstance(e.value, ast.Name) and (e.value.id + '.' + e.attr) in env:
+        return env[e.value.id + '.' + e.attr]
+    if isinstance(e, ast.UnaryOp) and isinstance(e.op, ast.Not):
+        return not _mini_eval(e.operand, env)
+    if isinstance(e, ast.BoolOp):
+        val = None
+        for x in e.values:
+            val = _mini_eval(x, env)
+            if isinstance(e.op, ast.And) and not val:
+                return val
+            if isinstance(e.op, ast.Or) and val:
+                return val
+        return val
+    if isinstance(e, ast.Compare) and len(e.ops) == 1:
+        l, r = _mini_eval(e.left, env), _mini_eval(e.comparators[0], env)
+        op = type(e.ops[0])
+        table = {ast.Eq: lambda: l == r, ast.NotEq: lambda: l != r, ast.In: lambda: l in r, ast.NotIn: lambda: l not in r, ast.Gt: lambda: l > r, ast.GtE: lambda: l >= r,
+                 ast.Lt: lambda: l < r, ast.LtE: lambda: l <= r}
+        return table[op]()
+    if isinstance(e, (ast.ListComp, ast.GeneratorExp)) and len(e.generators) == 1 and isinstance(e.generators[0].target, ast.Name):
+        gen = e.generators[0]
+        out = []
+        for item in _mini_eval(gen.iter, env):
+            env2 = dict(env)
+            env2[gen.target.id] = item
+            if all(_mini_eval(t, env2) for t in gen.ifs):
+                out.append(_mini_eval(e.elt, env2))
+        return out
+    if isinstance(e, ast.Call) and isinstance(e.func, ast.Name) and e.func.id in ('all', 'any', 'len', 'bool', 'list') and len(e.args) == 1 and not e.keywords:
+        v = _mini_eval(e.args[0], env)
+        return {'all': all, 'any': any, 'len': len, 'bool': bool, 'list': list}[e.func.id](v)
+    if isinstance(e, ast.Call) and isinstance(e.func, ast.Attribute) and e.func.attr in ('strip', 'lstrip', 'rstrip', 'startswith', 'endswith') and not e.keywords:
+        recv = _mini_eval(e.func.value, env)
+        if isinstance(recv, str):
+            return getattr(recv, e.func.attr)(*[_mini_eval(a, env) for a in e.args])
+    if isinstance(e, (ast.Tuple, ast.List)):
+        return [_mini_eval(x, env) for x in e.elts]
+    raise KeyError(ast.unparse(e))
+
+
+def r5c_code_predicate_on_samples(ctx):
+    """FINITE-EVAL: `has_any_code` on sample parts.  A part whose lines are all empty or comments has no code (it is reported skipped, not passed);
+    one real statement is code"""
+    rep = ctx.rep
+    f = ctx.func('xdoctest.doctest_part.DoctestPart.has_any_code')
+    recv = f.node.args.args[0].arg
+    body = [b for b in f.node.body if not (isinstance(b, ast.Expr) and isinstance(b.value, ast.Constant))]
+    samples = [([''], False), (['# only a comment'], False), (['', '# c', '   # indented'], False), (['x = 1'], True), (['# c', 'x = 1'], True), (['', 'print(1)'], True), (['   '], False)]
+    bad = []
+    for lines, want in samples:
+        env = {recv + '.exec_lines': list(lines)}
+        got = None
+        try:
+            for st in body:
+                if isinstance(st, ast.Assign) and len(st.targets) == 1 and isinstance(st.targets[0], ast.Name):
+                    env[st.targets[0].id] = _mini_eval(st.value, env)
+                elif isinstance(st, ast.Return) and st.value is not None:
+                    got = bool(_mini_eval(st.value, env))
+                    break
+                else:
+                    raise KeyError(ast.unparse(st)[:60])
+        except (KeyError, TypeError, AttributeError) as ex:
+            raise AnalysisError('C02.R5c: has_any_code is not a straight-line predicate over the lines of the part (%s)' % (ex,))
+        if got is not want:
+            bad.append((lines, got))
+    rep.ob('C02.R5c', ctx.loc(f, f.node), 'has_any_code on 7 sample parts', not bad,
+           'empty and comment lines are not code, a statement is' if not bad else
+           'for the lines %r has_any_code is %r: %s' % (bad[0][0], bad[0][1], 'a part without any statement counts as code, is "run" and reported passed instead of skipped'
+                                                        if bad[0][1] else 'a part with a real statement is treated as having no code and is skipped'), anchor=f.qualname)
+
+
 def r9_got_want_roles(ctx):
     """got and want keep their sides at every call into the checker: same clause as C05.R12"""
     from . import c05
@@ -752,6 +829,7 @@ from ..selftest import fire, silent      # noqa: E402
 DE = 'xdoctest/doctest_example.py'
 CK = 'xdoctest/checker.py'
 VARIANTS = [
+    fire('empty-line-counts-as-code', 'C02.R5c', ('xdoctest/doctest_part.py', "            not line or line.startswith('#')\n", "            line.startswith('#')\n")),
     fire('awaited-value-kept-in-the-wrong-mode', 'C02.R11', (DE, "                                if part.compile_mode == 'eval':\n                                    got_eval = asyncio.run(eval(code, test_globals))\n", "                                if part.compile_mode == 'exec':\n                                    got_eval = asyncio.run(eval(code, test_globals))\n")),
     fire('blank-output-counts-as-no-output', 'C02.R4b', ('xdoctest/checker.py', "        if not got_stdout:\n", "        if not got_stdout.strip():\n")),
     fire('value-fallback-compares-stdout-again', 'C02.R4b', ('xdoctest/checker.py', "                try:\n                    got = repr(got_eval)\n                except Exception as ex:", "                try:\n                    pass\n                except Exception as ex:")),
